@@ -13,7 +13,7 @@ use ts_rs::verif;
 use super::fsutil::{clear_dir, declared_names, files_only, norm_rel, run_op, snapshot, tree_json, Op, OpKind, Outcome, Tree};
 use crate::{guarded, rng::Rng, Args, Log, TypeEntry};
 
-pub const UNIVERSE: &[&str] = &["UA", "UB", "UC", "UD", "UE", "UF", "UG", "UGx", "UG2", "UH", "UI"];
+pub const UNIVERSE: &[&str] = &["UA", "UB", "UC", "UD", "UE", "UF", "UG", "UGx", "UG2", "UH", "UI", "UMSame", "UNSame", "UJ", "UK"];
 
 #[derive(Clone, Debug)]
 pub struct Config {
@@ -49,7 +49,8 @@ pub struct World<'a> {
     pub root: PathBuf,
     pub uni: Vec<usize>,
     /// ident -> registry index
-    pub by_ident: HashMap<String, usize>,
+    /// (relative output path, ident) -> registry index (two types may share an ident, not a path and an ident)
+    pub by_ident: HashMap<(String, String), usize>,
     /// registry index -> closure as (relative output path, ident)
     pub closure: HashMap<usize, BTreeSet<(String, String)>>,
 }
@@ -65,7 +66,7 @@ impl<'a> World<'a> {
         let mut by_ident = HashMap::new();
         let mut closure = HashMap::new();
         for &i in &uni {
-            by_ident.insert((reg[i].ident)(), i);
+            by_ident.insert(((reg[i].output_path)().map(|p| p.to_string_lossy().to_string()).unwrap_or_default(), (reg[i].ident)()), i);
             let set: BTreeSet<(String, String)> = (reg[i].collect)()
                 .into_iter()
                 .map(|d| (d.output_path.to_string_lossy().to_string(), d.ident))
@@ -110,8 +111,8 @@ impl<'a> World<'a> {
         }
         self.fresh();
         std::env::set_var("TS_RS_EXPORT_DIR", self.root.join(dname));
-        for (_, ident) in decls {
-            let i = self.by_ident[ident];
+        for (path, ident) in decls {
+            let i = self.by_ident[&(path.clone(), ident.clone())];
             let _ = guarded(|| (self.reg[i].export)());
         }
         let t = files_only(&snapshot(&self.root));
